@@ -42,7 +42,13 @@ Fails(r) ==
   ELSE IF r.ev = "Tree" THEN
      LET e == ParseTree(r.files, r.max_depth) IN
      Judge("C25", r.got, e.out, e.err, TRUE)
-  ELSE Chk("C24", YieldOk(r.items) /\ ~r.slow)
+  ELSE Chk("C24", YieldOk(r.items) /\ YieldOk(r.items_ro) /\ ~r.slow
+                  \* records_only() yields the same records up to the first $INCLUDE, which is its (last) error
+                  /\ LET inc == {i \in 1..Len(r.items) : r.items[i].k = "include"} IN
+                     IF inc = {} THEN r.items_ro = r.items
+                     ELSE LET f == CHOOSE i \in inc : \A j \in inc : i <= j IN
+                          /\ Len(r.items_ro) = f /\ r.items_ro[f].k = "err"
+                          /\ SubSeq(r.items_ro, 1, f - 1) = SubSeq(r.items, 1, f - 1))
 
 VARIABLES l, bad, nbad
 Init == l = 1 /\ bad = <<>> /\ nbad = 0
